@@ -71,6 +71,39 @@ func main() {
 	kinds := map[string]int{}
 	// the LZ4 binding the hibernation relies on (assumed lossless by the model): round trip of columns of every
 	// compressibility and size, including incompressible ones far beyond the sizes of the arenas below
+	// every length up to 1100 words once, incompressible and with a compressible head: the length of the final literal
+	// run decides how its length bytes are written (15, 15+255, 15+2*255 ... are the boundaries)
+	for n := 1; n <= 1100; n++ {
+		rng := rand.New(rand.NewSource(seed*77 + int64(n)))
+		for variant := 0; variant < 2; variant++ {
+			data := make([]uint32, n)
+			for i := range data {
+				if variant == 1 && i < n/3 {
+					data[i] = 7
+				} else {
+					data[i] = rng.Uint32()
+				}
+			}
+			kinds["lz4_columns_length_sweep"]++
+			func() {
+				desc := fmt.Sprintf(`{"lz4_sweep_seed":%d,"words":%d,"compressible_head":%v}`, seed*77+int64(n), n, variant == 1)
+				defer func() {
+					if r := recover(); r != nil {
+						hv.Fail("lz4-roundtrip", desc, fmt.Sprintf("panic: %v", r))
+					}
+				}()
+				packed := rbtree.CompressUInt32Slice(data)
+				back := make([]uint32, n)
+				rbtree.DecompressUInt32Slice(packed, back)
+				for i := range data {
+					if back[i] != data[i] {
+						hv.Fail("lz4-roundtrip", desc, fmt.Sprintf("word %d of %d reads back as %d, written %d", i, n, back[i], data[i]))
+						return
+					}
+				}
+			}()
+		}
+	}
 	for it := 0; it < count; it += 25 {
 		rng := rand.New(rand.NewSource(seed*31 + int64(it)))
 		n := 1 + rng.Intn(60000)
